@@ -1,5 +1,6 @@
 SPECIFICATION TSpec
 CONSTANTS
+ MaxReinit = 5
  CountCalls = TRUE
  NW <- TrNW  HdrSz <- TrHdrSz  Blocks <- TrBlocks  TailSz <- TrTailSz  TailOk <- TrTailOk  FileLen <- TrFileLen
  Chunk = 16384  Timeout <- TrTimeout  FailFast <- TrFailFast  Spurious = TRUE  MemT = 1000000000
